@@ -165,8 +165,11 @@ class Report:
             'level': self.level, 'coverage': coverage, 'assumptions': self.assumptions,
             'wall_s': round(time.time() - self.t0, 2), 'violations': len(new),
         }
-        os.makedirs(os.path.join(env.VERIF, 'evidence'), exist_ok=True)
-        with open(os.path.join(env.VERIF, 'evidence', self.prop + '.json'), 'w') as fh:
+        # mutant / audit runs on scratch copies (tools/*.sh) may divert their evidence so that the committed files keep
+        # describing the run against /repo
+        evdir = os.environ.get('VERIF_EVIDENCE_DIR') or os.path.join(env.VERIF, 'evidence')
+        os.makedirs(evdir, exist_ok=True)
+        with open(os.path.join(evdir, self.prop + '.json'), 'w') as fh:
             json.dump(evidence, fh, indent=1, default=str)
         print(f"[{self.prop}] obligations={n_obl} discharged={n_dis} undecided={len(self.undecided)} "
               f"bounded_evaluations={ev_total} known={len(known)} new_violations={len(new)} wall={evidence['wall_s']}s")
